@@ -291,7 +291,7 @@ func opUnary(w *World, st *Step) execResult {
 func ElemKind(c *Case) string {
 	for i := range c.Steps {
 		switch k := c.Steps[i].Op.K; k {
-		case "Arith", "Cmp", "Unary":
+		case "Arith", "Cmp", "Unary", "Reduce", "Arg":
 			if strings.Contains(string(c.Steps[i].Op.A), `"OP"`) {
 				return k
 			}
